@@ -658,6 +658,23 @@ func (g *instGen) mutate(in *instance, kind string, app, tr *datadictionary.Data
 		if len(in.body) == 0 {
 			return planted{}, false
 		}
+		if len(in.trl) > 0 && r.chance(1, 2) {
+			// a body field behind a trailer field (the trailer of the instance carries 93/89)
+			var bs []int
+			for i, u := range in.body {
+				if len(u.fields) == 1 && u.fields[0].role == 'p' && !u.fields[0].counter {
+					bs = append(bs, i)
+				}
+			}
+			if len(bs) > 0 {
+				i := bs[r.intn(len(bs))]
+				u := in.body[i]
+				in.body = append(in.body[:i:i], in.body[i+1:]...)
+				j := 1 + r.intn(len(in.trl))
+				in.trl = append(in.trl[:j:j], append([]unit{u}, in.trl[j:]...)...)
+				return planted{kind, u.fields[0].tag, "behind-trailer"}, true
+			}
+		}
 		var hs []int
 		for i, u := range in.hdr {
 			if len(u.fields) == 1 && !u.fields[0].counter && quickfix.Tag(u.fields[0].tag).IsHeader() {
